@@ -107,7 +107,8 @@ class Ctx:
         if extra_cfg:
             lines.append(extra_cfg)
         open(cfg, "w").write("\n".join(lines) + "\n")
-        rc, out = sv.tlc(module, cfg=cfg, workers=workers, timeout=timeout, metaname=name,
+        # deep, narrow state graphs (few programs, long runs) get slower with many workers
+        rc, out = sv.tlc(module, cfg=cfg, workers=workers or 6, timeout=timeout, metaname=name,
                          coverage=not self.quick)
         if not sv.tlc_ok(rc, out):
             raise sv.ToolError("TLC on %s (%s) did not complete cleanly (rc=%d):\n%s"
@@ -383,7 +384,7 @@ def c07(ctx):
                 "a jump or a loop (all do); distinct = distinct parameter tuples"
                 % ("" if ctx.quick else ", depth 3 sampled"))
     out = ctx.run_model("MC_C07", "C07Params" if ctx.quick else "C07ParamsThorough",
-                        invariants=["EscapeWellFormed"])
+                        invariants=["EscapeWellFormed"], workers=16)
     ctx.replay(out, "c07", seeds=(None,) if ctx.quick else (None, ctx.seed))
     scripts = [s for s in repo_test_scripts()
                if re.search(r"\b(break|continue|return|while|for|if)\b", s[1])]
@@ -395,7 +396,7 @@ def c16(ctx):
                 "user function, builtin) in plain form, + - * / % also in op-assign form on variable / element / "
                 "property; 23 typed contexts x 8 kinds; thorough: the same inside a function. Every cell is "
                 "non-trivial (each exercises one entry of the type table); distinct = distinct cells")
-    out = ctx.run_model("MC_C16", "C16Params" if ctx.quick else "C16ParamsThorough")
+    out = ctx.run_model("MC_C16", "C16Params" if ctx.quick else "C16ParamsThorough", workers=16)
     ctx.notes.append("ASSUME TypeTable / TypeNamesOk (operator domain = the table of the property statement; "
                      "diagnostics name operator and both type names in order) checked by TLC at start-up")
     ctx.replay(out, "c16", seeds=(None,) if ctx.quick else (None, ctx.seed, ctx.seed + 1))
@@ -415,7 +416,7 @@ def c11(ctx):
                 "is one point of a law's domain or its complement); distinct = distinct parameter tuples"
                 % (ml, mc))
     out = ctx.run_model("MC_C11", "C11Params", invariants=["C11Laws"], props=FRAME_PROPS,
-                        constants={"MaxLen": "= %d" % ml, "MaxChars": "= %d" % mc})
+                        constants={"MaxLen": "= %d" % ml, "MaxChars": "= %d" % mc}, workers=16)
     ctx.replay(out, "c11", seeds=(None,) if ctx.quick else (None, ctx.seed))
     scripts = [s for s in repo_test_scripts() if "index" in s[0] or "range" in s[0] or "concat" in s[0]]
     corpus_validate(ctx, scripts, "c11tests")
@@ -539,7 +540,7 @@ def c20(ctx):
                 "with the machine on every flat sequence; non-trivial = every sequence; distinct = distinct "
                 "parameter tuples" % sl)
     out = ctx.run_model("MC_C20", "C20Params", invariants=["C20Laws"], props=FRAME_PROPS + ["ShadowFrame"],
-                        constants={"SeqLen": "= %d" % sl})
+                        constants={"SeqLen": "= %d" % sl}, workers=16)
     ctx.replay(out, "c20", seeds=(None,) if ctx.quick else (None, ctx.seed))
     scripts = [s for s in repo_test_scripts() if "scope" in s[0] or "variables" in s[0] or "runtime_errors" in s[0]]
     corpus_validate(ctx, scripts, "c20tests")
@@ -555,7 +556,7 @@ def c13(ctx):
                 "spread of 0..2) against arity 0..3 with / without ..rest, called written-out and spread; "
                 "non-trivial = every case; distinct = distinct parameter tuples" % (mp, ms, mp))
     out = ctx.run_model("MC_C13", "C13Params", invariants=["C13Laws"], props=FRAME_PROPS + ["BuildFresh"],
-                        constants={"MaxPat": "= %d" % mp, "MaxSrc": "= %d" % ms})
+                        constants={"MaxPat": "= %d" % mp, "MaxSrc": "= %d" % ms}, workers=16)
     ctx.replay(out, "c13", seeds=(None,) if ctx.quick else (None, ctx.seed))
     scripts = [s for s in repo_test_scripts()
                if "destruct" in s[0] or "spread" in s[0] or "collect" in s[0] or "params" in s[0]]
@@ -588,7 +589,7 @@ def c17(ctx):
                 "x depths; every stderr byte-exact against SeedDiag, plus a specification-independent form check; "
                 "non-trivial = every case (all fail); distinct = distinct parameter tuples" % md)
     out = ctx.run_model("MC_C17", "C17Params", invariants=["C17Laws"], props=["OutputMonotone"],
-                        constants={"MaxDepth": "= %d" % md})
+                        constants={"MaxDepth": "= %d" % md}, workers=16)
     ctx.replay(out, "c17", seeds=(None,) if ctx.quick else (None, ctx.seed))
     scripts = [s for s in repo_test_scripts() if "error" in s[0] or "stacktrace" in s[0]]
     corpus_validate(ctx, scripts, "c17tests")
@@ -754,11 +755,12 @@ def c19(ctx):
     corpus_validate(ctx, scripts, "c19tests")
 
 
-def run_mc_lex(ctx, maxlen, alphabet, name):
+def run_mc_lex(ctx, maxlen, alphabet, name, wraps="NoWrap", extra_inv=()):
     cfg = os.path.join(sv.scratch("cfg", clean=False), name + ".cfg")
     open(cfg, "w").write("INIT MCLexInit\nNEXT MCLexNext\nCONSTANTS\n  MaxLen = %d\n  Alphabet <- %s\n"
-                         "INVARIANTS\n  LexInv\n  EmitLex\nPROPERTIES\n  Progress\nCHECK_DEADLOCK TRUE\n"
-                         % (maxlen, alphabet))
+                         "  Wraps <- %s\nINVARIANTS\n  LexInv\n  EmitLex\n%sPROPERTIES\n  Progress\n"
+                         "CHECK_DEADLOCK TRUE\n"
+                         % (maxlen, alphabet, wraps, "".join("  %s\n" % i for i in extra_inv)))
     rc, out = sv.tlc("MC_Lex", cfg=cfg, timeout=3000, metaname=name)
     if not sv.tlc_ok(rc, out):
         raise sv.ToolError("TLC on MC_Lex (%s) failed:\n%s" % (name, sv.tlc_error_text(out)))
@@ -768,7 +770,8 @@ def run_mc_lex(ctx, maxlen, alphabet, name):
     ctx.models[name] = {"module": "MC_Lex", "MaxLen": maxlen, "alphabet": alphabet,
                         "distinct_states": st["distinct"], "states_generated": st["generated"],
                         "invariants": ["PosInv", "InBounds", "LineBound", "OneError", "TokensOrdered",
-                                       "StmtEndRule", "SlotsWellFormed"], "properties": ["Progress"]}
+                                       "StmtEndRule", "SlotsWellFormed"] + list(extra_inv),
+                        "properties": ["Progress"]}
     return sv.tagged(out, "LEX")
 
 
@@ -886,7 +889,37 @@ def c09(ctx):
     ctx.replay(out17, "c09-c17", seeds=seeds[: (2 if ctx.quick else 4)], render_opts=opts)
 
 
+def c15(ctx):
+    import lexcheck as lx
+    ml = 3 if ctx.quick else 4
+    ms = 2 if ctx.quick else 2
+    ctx.rule = ("all literal bodies of length <= %d over {\" $ \\ { } x n r a 4 A, a 2-, 3- and 4-byte character, "
+                "newline} inside p(\"...\") and p($\"...\"): SeedLex's string modes under TLC with DecodeExact / "
+                "DecodeDomain (an independent reading of the escape rules) and SlotsWellFormed, real token stream "
+                "(decoded text, slot offsets, error kind / position / character) = specification; interpolation: 7 "
+                "literal pieces x 10 slot expressions (variable, concatenation, call, object-literal read, nested "
+                "literal, nested interpolated literal, index; int / list / null) x up to %d slots, each compared "
+                "with the explicit concatenation, ->len() printed; byte laws on 6 strings; non-trivial = every case"
+                % (ml, ms))
+    specs = run_mc_lex(ctx, ml, "StrAlphabet", "MC_Lex_str%d" % ml, wraps="StrWraps",
+                       extra_inv=("DecodeExact", "DecodeDomain"))
+    texts = [lx.text_of(o["src"]) for o in specs]
+    lx.check_texts(ctx, texts, specs, "c15lex", "C15")
+    for t in texts:
+        ctx.nontrivial.add("lit:" + t)
+    for o in specs[:: max(1, len(specs) // 2)][:2]:
+        ctx.sample({"text": lx.text_of(o["src"]), "tokens": [[t["k"], lx.text_of(t["text"]), t["slots"]] for t in o["toks"]],
+                    "error": o["err"]})
+    out = ctx.run_model("MC_C15", "C15Params", invariants=["C15Laws"], props=["HeapFrame", "OutputMonotone"],
+                        constants={"MaxSlots": "= %d" % ms}, workers=16)
+    ctx.replay(out, "c15", seeds=(None, ctx.seed) if ctx.quick else (None, ctx.seed, ctx.seed + 1),
+               render_opts={"hex_prob": 0.3})
+    scripts = [s for s in repo_test_scripts() if "string" in s[0] or "interp" in s[0] or "escape" in s[0]]
+    corpus_validate(ctx, scripts, "c15tests")
+
+
 REGISTRY = {
+    "C15": c15,
     "C09": c09,
     "C03": c03,
     "C19": c19,
